@@ -217,7 +217,16 @@ pub fn corr(run: &mut Run) {
         if matches!(ops.last(), Some(AOp::Const(_))) {
             continue;
         }
-        let prog = AProg { st: BIT, shape: vec![], ops };
+        // sometimes the output is a tuple of two nodes (e.g. a product together with one of its factors)
+        let out_tuple = if rng.chance(1, 3) {
+            let n = ops.len();
+            let a = n - 1;
+            let b = rng.below(n as u64) as usize;
+            if rng.chance(1, 2) { vec![a, b] } else { vec![b, a] }
+        } else {
+            vec![]
+        };
+        let prog = AProg { st: BIT, shape: vec![], ops, out_tuple };
         let ctx = match prog.build() {
             Ok(c) => c,
             Err(_) => continue,
@@ -304,7 +313,7 @@ pub fn corr(run: &mut Run) {
             run.count(&format!("observer:{}", if is_out { "output-party" } else { "non-recipient" }));
             // fixed values for inputs the observer knows (two variants)
             for fixed in 0..2u64 {
-                let mut dists: Vec<(Vec<bool>, bool, HashMap<Vec<bool>, u32>)> = vec![];
+                let mut dists: Vec<(Vec<bool>, Vec<bool>, HashMap<Vec<bool>, u32>)> = vec![];
                 for h in 0..(1u64 << hidden.len()) {
                     let mut inputs_b = vec![false; n_in];
                     for i in 0..n_in {
@@ -314,7 +323,7 @@ pub fn corr(run: &mut Run) {
                         inputs_b[*i] = (h >> j) & 1 == 1;
                     }
                     let mut dist: HashMap<Vec<bool>, u32> = HashMap::new();
-                    let mut outv = false;
+                    let mut outv: Vec<bool> = vec![];
                     for tape in 0..(1u64 << g.n_tape) {
                         let vals = interp(&g, &inputs_b, tape);
                         let mut view: Vec<bool> = vec![];
@@ -326,10 +335,11 @@ pub fn corr(run: &mut Run) {
                         }
                         *dist.entry(view).or_insert(0) += 1;
                         if tape == 0 {
-                            // revealed output value (for shared outputs: xor of the shares)
+                            // revealed output value (only used when the observer is an output party,
+                            // in which case the output node carries the revealed value)
                             let mut f = vec![];
                             vals[g.out].flat(&mut f);
-                            outv = f.iter().fold(false, |a, b| a ^ b);
+                            outv = f;
                         }
                     }
                     dists.push((inputs_b, outv, dist));
@@ -354,4 +364,249 @@ pub fn corr(run: &mut Run) {
         }
     }
     run.extra.insert("programs".into(), serde_json::json!(done));
+    discipline_stream(run);
+}
+
+// ------------------------------------------------------------------------------------------------
+// Stream D: the mask ("pivot") discipline on compiled graphs of ANY scalar type and shape.
+// CCV.C03.pivot_discipline_hides proves: if the messages delivered to a party can be ordered so that
+// each carries a pivot mask with coefficient ±1 that no earlier message depends on, the party's view is
+// identically distributed for all secrets.  Here the hypotheses are established syntactically on the
+// graph the compiler emits: a message is flattened through NOP/Add/Subtract nodes of its own type into
+// signed leaves; a pivot is a leaf that is a PRF (or foreign Random) node whose variable the observer
+// does not know and that occurs in the dependency cone of no other leaf of that message.
+// ------------------------------------------------------------------------------------------------
+
+use crate::families::*;
+use std::collections::BTreeSet;
+
+struct Cones {
+    /// unknown tape variables in the cone of each node
+    vars: Vec<BTreeSet<usize>>,
+    /// depends on an input the observer does not know
+    hidden: Vec<bool>,
+    /// tape variable carried by the node itself (PRF with unknown key / foreign Random), if any
+    own: Vec<Option<usize>>,
+}
+
+fn ir_key_of(ir: &[IrNode], mut i: usize) -> Option<usize> {
+    loop {
+        match &ir[i].op {
+            Operation::Random(t) if *t == array_type(vec![128], BIT) => return Some(i),
+            Operation::NOP => i = ir[i].deps[0] as usize,
+            _ => return None,
+        }
+    }
+}
+
+fn ir_key_holders(ir: &[IrNode]) -> HashMap<usize, [bool; 3]> {
+    let mut h: HashMap<usize, [bool; 3]> = HashMap::new();
+    for (i, n) in ir.iter().enumerate() {
+        if matches!(&n.op, Operation::Random(t) if *t == array_type(vec![128], BIT)) {
+            h.insert(i, [false; 3]);
+        }
+    }
+    for (i, n) in ir.iter().enumerate() {
+        if matches!(n.op, Operation::NOP) {
+            if let Some(k) = ir_key_of(ir, i) {
+                let e = h.entry(k).or_insert([false; 3]);
+                for (s, r) in &n.sends {
+                    e[*s as usize] = true;
+                    e[*r as usize] = true;
+                }
+            }
+        }
+    }
+    h
+}
+
+fn cones(ir: &[IrNode], ins: &[IOStatus], p: usize) -> Option<Cones> {
+    let holders = ir_key_holders(ir);
+    let mut var_ids: HashMap<(usize, u64), usize> = HashMap::new();
+    let mut n_vars = 0;
+    let mut vars: Vec<BTreeSet<usize>> = vec![];
+    let mut hidden = vec![];
+    let mut own = vec![];
+    let mut input_id = 0;
+    for (i, n) in ir.iter().enumerate() {
+        let mut v: BTreeSet<usize> = BTreeSet::new();
+        let mut h = false;
+        let mut o = None;
+        for d in &n.deps {
+            v.extend(vars[*d as usize].iter().cloned());
+            h |= hidden[*d as usize];
+        }
+        match &n.op {
+            Operation::Input(_) => {
+                let st = &ins[input_id];
+                input_id += 1;
+                h = match st {
+                    IOStatus::Public => false,
+                    IOStatus::Party(o) => *o as usize != p,
+                    IOStatus::Shared => true,
+                };
+            }
+            Operation::PRF(iv, _) | Operation::PermutationFromPRF(iv, _) => {
+                let k = ir_key_of(ir, n.deps[0] as usize)?;
+                let known = holders.get(&k).map(|x| x[p]).unwrap_or(false);
+                if !known {
+                    let id = *var_ids.entry((k, *iv)).or_insert_with(|| {
+                        n_vars += 1;
+                        n_vars - 1
+                    });
+                    v = BTreeSet::new();
+                    v.insert(id);
+                    o = Some(id);
+                } else {
+                    v = BTreeSet::new();
+                }
+                h = false;
+            }
+            Operation::Random(t) => {
+                if *t != array_type(vec![128], BIT) {
+                    // a value drawn by some party: unknown to p unless p is its first sender / sole user
+                    let id = *var_ids.entry((i, u64::MAX)).or_insert_with(|| {
+                        n_vars += 1;
+                        n_vars - 1
+                    });
+                    v.insert(id);
+                    o = Some(id);
+                }
+            }
+            _ => {}
+        }
+        vars.push(v);
+        hidden.push(h);
+        own.push(o);
+    }
+    Some(Cones { vars, hidden, own })
+}
+
+fn flatten(ir: &[IrNode], n: usize, neg: bool, ty: &Type, out: &mut Vec<(bool, usize)>) {
+    let same = |d: u64| ir[d as usize].ty == *ty;
+    match &ir[n].op {
+        Operation::NOP if same(ir[n].deps[0]) => flatten(ir, ir[n].deps[0] as usize, neg, ty, out),
+        Operation::Add if same(ir[n].deps[0]) && same(ir[n].deps[1]) => {
+            flatten(ir, ir[n].deps[0] as usize, neg, ty, out);
+            flatten(ir, ir[n].deps[1] as usize, neg, ty, out);
+        }
+        Operation::Subtract if same(ir[n].deps[0]) && same(ir[n].deps[1]) => {
+            flatten(ir, ir[n].deps[0] as usize, neg, ty, out);
+            flatten(ir, ir[n].deps[1] as usize, !neg, ty, out);
+        }
+        _ => out.push((neg, n)),
+    }
+}
+
+/// Some(certificate description) if the discipline holds for observer p, None otherwise
+fn discipline_for(ir: &[IrNode], ins: &[IOStatus], p: usize) -> std::result::Result<(usize, usize), String> {
+    let c = cones(ir, ins, p).ok_or_else(|| "PRF key is not a Random/NOP chain".to_owned())?;
+    // messages delivered to p
+    let mut msgs: Vec<usize> = vec![];
+    for (i, n) in ir.iter().enumerate() {
+        if n.sends.iter().any(|(_, r)| *r as usize == p) {
+            msgs.push(i);
+        }
+    }
+    let mut computable = 0;
+    // (message, candidate pivots)
+    let mut open: Vec<(usize, Vec<usize>)> = vec![];
+    for m in msgs {
+        if c.vars[m].is_empty() && !c.hidden[m] {
+            computable += 1;
+            continue;
+        }
+        if matches!(ir[m].ty, Type::Tuple(_) | Type::Vector(_, _) | Type::NamedTuple(_)) {
+            return Err(format!("message node {} is a tuple", m));
+        }
+        let mut leaves = vec![];
+        flatten(ir, m, false, &ir[m].ty, &mut leaves);
+        let mut cands = vec![];
+        for (li, (_, leaf)) in leaves.iter().enumerate() {
+            if let Some(v) = c.own[*leaf] {
+                if ir[*leaf].ty != ir[m].ty {
+                    continue;
+                }
+                let elsewhere = leaves.iter().enumerate().any(|(lj, (_, other))| lj != li && c.vars[*other].contains(&v));
+                if !elsewhere {
+                    cands.push(v);
+                }
+            }
+        }
+        open.push((m, cands));
+    }
+    let n_piv = open.len();
+    // order search: pick the LAST message among the remaining ones
+    while !open.is_empty() {
+        let mut pick = None;
+        'outer: for (i, (_, cands)) in open.iter().enumerate() {
+            for v in cands {
+                if open.iter().enumerate().all(|(j, (m2, _))| j == i || !c.vars[*m2].contains(v)) {
+                    pick = Some(i);
+                    break 'outer;
+                }
+            }
+        }
+        match pick {
+            Some(i) => {
+                open.remove(i);
+            }
+            None => {
+                let (m, cands) = &open[0];
+                return Err(format!("no admissible pivot: e.g. message node {} ({}) has candidate masks {:?}, unknown masks in its cone {:?}, depends on hidden input: {}", m, op_tag(&ir[*m].op), cands, c.vars[*m], c.hidden[*m]));
+            }
+        }
+    }
+    Ok((computable, n_piv))
+}
+
+pub fn discipline_stream(run: &mut Run) {
+    let mut rng = run.rng("discipline");
+    let n = run.tier.scale(120, 1500);
+    for it in 0..n {
+        let fam = match catch(|| if it % 3 == 0 { tensor_family(&mut rng, 4) } else { arith_family(&mut rng, 6) }) {
+            Ok(Ok(f)) => f,
+            _ => continue,
+        };
+        let ins: Vec<IOStatus> = fam.in_types.iter().map(|_| gen_status(&mut rng)).collect();
+        if ins.iter().any(|s| matches!(s, IOStatus::Shared)) {
+            // the two share slots a party holds of a shared input are part of its view but are not
+            // messages of this graph: such configurations are left to the enumeration stream
+            continue;
+        }
+        let outs = gen_outputs(&mut rng);
+        let mode = rng.below(3) as u8;
+        let cc = match catch(|| compile(&fam.ctx, &ins, &outs, mode)) {
+            Ok(Ok(c)) => c,
+            _ => continue,
+        };
+        let (ir, _out) = match cc.get_main_graph().and_then(|g| ir_of_graph(&g)) {
+            Ok(x) => x,
+            _ => continue,
+        };
+        let descr = format!("{} [{}] {}", fam.name, fam.descr, config_name(&ins, &outs, mode));
+        for p in 0..3usize {
+            if outs.iter().any(|o| *o == IOStatus::Party(p as u64)) {
+                continue; // recipients: reveal messages are handled by the enumeration stream
+            }
+            if !ins.iter().any(|s| matches!(s, IOStatus::Shared) || matches!(s, IOStatus::Party(o) if *o as usize != p)) {
+                continue;
+            }
+            run.oracle_case(&format!("discipline {} observer {}", descr, p), true);
+            match discipline_for(&ir, &ins, p) {
+                Ok((comp, piv)) => {
+                    run.count(&format!("discipline:proved:{}", fam.name));
+                    run.count_n("discipline:messages-computable", comp as u64);
+                    run.count_n("discipline:messages-pivoted", piv as u64);
+                }
+                Err(why) => {
+                    if fam.name == "arith" || fam.ops.iter().all(|o| ["Add", "Subtract", "Multiply", "Sum", "Get", "GetSlice", "Reshape", "PermuteAxes", "Stack", "Concatenate", "CumSum", "CreateTuple/TupleGet", "Matmul", "Dot", "Gemm"].contains(&o.as_str())) {
+                        run.oracle_fail(&format!("C03:mask-discipline:{}", fam.name), format!("{} : observer party {} (not an output party): {}", descr, p, why));
+                    } else {
+                        run.count(&format!("discipline:unknown:{}:{}", fam.name, why.split(':').next().unwrap_or("").chars().take(24).collect::<String>()));
+                    }
+                }
+            }
+        }
+    }
 }
